@@ -1,6 +1,7 @@
 (* C02 glue.  Requests from go/cmd/c02:
-     trace  <proto> <init> <chunks> <fin>                      -> <ctl>|<mutation skeleton of the trace>|<final directory>
-     crash  <proto> <init> <chunks> <fin> <j> <inflight> <observed directory>
+     trace  <proto> <init> <chunks> <fin> <fault>              -> <ctl>|<mutation skeleton of the trace>|<final directory>
+     crash  <proto> <init> <chunks> <fin> <fault> <j> <inflight> <observed directory>
+            <fault> = "-" or "mktemp": the call that creates the staging file fails (name too long, …)
             -> match | mismatch:...   (observed must be the model's crash state at a cut after j skeleton
                events, or j+1 when the kill hit a call in flight; also re-checks that the run under
                crash_plan k repeats the first k events of the uninterrupted run)
@@ -67,25 +68,40 @@ let str_of_fs known m =
 
 let rec firstn n l = if n <= 0 then [] else match l with [] -> [] | x :: r -> x :: firstn (n - 1) r
 
+(* index of the failing call: the first CreateTemp of the uninterrupted run *)
+let fault_index fault p init chunks fin =
+  if fault = "-" then -1 else
+  if fault <> "mktemp" then failwith ("bad fault " ^ fault) else
+  let (_, w) = run_c02 None p init chunks fin in
+  let rec find i = function
+    | [] -> failwith "no CreateTemp call in the trace"
+    | e :: r -> if e.ev_op = OpCreateTemp then i else find (i + 1) r in
+  find 0 (List.rev w.wtr)
+(* plan: call number fi fails, and (cut >= 0) every call numbered >= cut is ineffective *)
+let plan fi cut = fun n -> let i = int_of_nat n in i = fi || (cut >= 0 && i >= cut)
+
 let dispatch fn args = match fn, args with
-  | "trace", [proto; init; chunks; fin] ->
+  | "trace", [proto; init; chunks; fin; fault] ->
     let p = proto_of proto and init = fs_of_string init in
     let known = List.map fst init @ proto_paths p in
-    let (r, w) = run_c02 None p init (chunks_of_string chunks) (ctl_of fin) in
+    let chunks = chunks_of_string chunks and fin = ctl_of fin in
+    let fi = fault_index fault p init chunks fin in
+    let (r, w) = run_c02_plan (plan fi (-1)) p init chunks fin in
     str_of_ctl r ^ "|" ^ String.concat ";" (skeleton known (List.rev w.wtr)) ^ "|" ^ str_of_fs known w.wfs
-  | "crash", [proto; init; chunks; fin; j; inflight; observed] ->
+  | "crash", [proto; init; chunks; fin; fault; j; inflight; observed] ->
     let p = proto_of proto and init = fs_of_string init in
     let known = List.map fst init @ proto_paths p in
     let chunks = chunks_of_string chunks and fin = ctl_of fin in
     let j = int_of_string j and inflight = (inflight = "1") in
-    let (_, wfull) = run_c02 None p init chunks fin in
+    let fi = fault_index fault p init chunks fin in
+    let (_, wfull) = run_c02_plan (plan fi (-1)) p init chunks fin in
     let full = List.rev wfull.wtr in
     let n = List.length full in
     let ok = ref false and prefix_ok = ref true and seen = ref [] in
     for k = 0 to n do
       let c = List.length (skeleton known (firstn k full)) in
       if c = j || (inflight && c = j + 1) then begin
-        let (_, wk) = run_c02 (Some (nat_of_int k)) p init chunks fin in
+        let (_, wk) = run_c02_plan (plan fi k) p init chunks fin in
         if firstn k (List.rev wk.wtr) <> firstn k full then prefix_ok := false;
         let st = str_of_fs known wk.wfs in
         if not (List.mem st !seen) then seen := st :: !seen;
